@@ -316,7 +316,10 @@ def _sel(src_ts, dst_ts):
     sport, dport = _port(src_ts), _port(dst_ts)
     return {'family': 2 if src_ts['ts_type'] == 7 else 10, 'saddr': sa, 'daddr': da, 'prefixlen_s': sp,
             'prefixlen_d': dp, 'sport': sport, 'sport_mask': 0xFFFF if sport else 0, 'dport': dport,
-            'dport_mask': 0xFFFF if dport else 0, 'proto': src_ts['proto']}
+            'dport_mask': 0xFFFF if dport else 0,
+            # a kernel selector has one protocol field; when only one of the two selectors names a protocol the SA is limited
+            # to that one (anything else would be wider than what was negotiated)
+            'proto': src_ts['proto'] or dst_ts['proto']}
 
 
 def rsa_verify(pub_pem, sig, data):
